@@ -8,7 +8,8 @@
 //   o_calls       pipeline indices in the order they were invoked
 // Direct oracle: every selected pipeline is invoked once per occurrence; a mutating pipeline receives a
 // payload no other invocation received, and never a read-only one; payload shared by several invocations
-// is read-only; content at call time equals what was sent; Consumer() / Consumer(unknown) fail.
+// is read-only; content at call time equals what was sent; Consumer() / Consumer(unknown) fail; all of it also
+// when the caller's context is cancelled before or during the fan-out.
 package connector
 
 import (
@@ -36,7 +37,7 @@ type vRtOps[T comparable, C any] struct {
 	mkCons  func(mut bool, fn func(T) error) C
 	router  func(map[pipeline.ID]C) (def C, sel func(...pipeline.ID) (C, error))
 	caps    func(C) bool
-	consume func(C, T) error
+	consume func(context.Context, C, T) error
 }
 
 var vRtLogs = vRtOps[plog.Logs, consumer.Logs]{
@@ -55,7 +56,7 @@ var vRtLogs = vRtOps[plog.Logs, consumer.Logs]{
 		return r, r.Consumer
 	},
 	caps:    func(c consumer.Logs) bool { return c.Capabilities().MutatesData },
-	consume: func(c consumer.Logs, p plog.Logs) error { return c.ConsumeLogs(context.Background(), p) },
+	consume: func(ctx context.Context, c consumer.Logs, p plog.Logs) error { return c.ConsumeLogs(ctx, p) },
 }
 
 var vRtMetrics = vRtOps[pmetric.Metrics, consumer.Metrics]{
@@ -74,7 +75,7 @@ var vRtMetrics = vRtOps[pmetric.Metrics, consumer.Metrics]{
 		return r, r.Consumer
 	},
 	caps:    func(c consumer.Metrics) bool { return c.Capabilities().MutatesData },
-	consume: func(c consumer.Metrics, p pmetric.Metrics) error { return c.ConsumeMetrics(context.Background(), p) },
+	consume: func(ctx context.Context, c consumer.Metrics, p pmetric.Metrics) error { return c.ConsumeMetrics(ctx, p) },
 }
 
 var vRtTraces = vRtOps[ptrace.Traces, consumer.Traces]{
@@ -93,7 +94,7 @@ var vRtTraces = vRtOps[ptrace.Traces, consumer.Traces]{
 		return r, r.Consumer
 	},
 	caps:    func(c consumer.Traces) bool { return c.Capabilities().MutatesData },
-	consume: func(c consumer.Traces, p ptrace.Traces) error { return c.ConsumeTraces(context.Background(), p) },
+	consume: func(ctx context.Context, c consumer.Traces, p ptrace.Traces) error { return c.ConsumeTraces(ctx, p) },
 }
 
 func vRunRouter[T comparable, C any](ops vRtOps[T, C], out *vOut, pcaps []bool, sel []int, roIn bool) {
@@ -104,6 +105,17 @@ func vRunRouter[T comparable, C any](ops vRtOps[T, C], out *vOut, pcaps []bool, 
 		same bool
 	}
 	var calls []call
+	// the caller's context: live, or cancelled while the first invoked pipeline works (every third case),
+	// or already cancelled (every seventh)
+	ctx, cancel := context.WithCancel(context.Background())
+	defer cancel()
+	cancelMid := (len(sel)+len(pcaps)+sel[0])%3 == 0
+	if (len(sel)*5+len(pcaps)+sel[len(sel)-1])%7 == 0 {
+		cancel()
+		out.Stat("router_ctx_cancelled_before", 1)
+	} else if cancelMid {
+		out.Stat("router_ctx_cancelled_during", 1)
+	}
 	sent := ops.newP()
 	if roIn {
 		ops.markRO(sent)
@@ -116,6 +128,9 @@ func vRunRouter[T comparable, C any](ops vRtOps[T, C], out *vOut, pcaps []bool, 
 		ids[i] = pipeline.NewIDWithName(ops.signal, fmt.Sprintf("p%d", i))
 		cm[ids[i]] = ops.mkCons(mut, func(p T) error {
 			calls = append(calls, call{i, p, ops.isRO(p), bytes.Equal(ops.enc(p), sentBytes)})
+			if cancelMid {
+				cancel() // the caller gives up while the first invoked pipeline is working
+			}
 			return nil
 		})
 	}
@@ -138,7 +153,7 @@ func vRunRouter[T comparable, C any](ops vRtOps[T, C], out *vOut, pcaps []bool, 
 	}
 	capObs := ops.caps(c)
 	defCap := ops.caps(def)
-	if err := ops.consume(c, sent); err != nil {
+	if err := ops.consume(ctx, c, sent); err != nil {
 		fail("consume-error", err.Error())
 	}
 	// ---- term ----
